@@ -122,14 +122,7 @@ def astep (p : Prog) (pc : Nat) (i : Instr) (s : AStack) : Option (List (Nat × 
       match s1 with
       | .datum m :: r => if mtyp p m = some 2 ∨ mtyp p m = some 3 then one r else none
       | _ => none
-  | .strptime =>
-    (apopString p s).bind fun s1 =>
-      match s1 with
-      | [] => none
-      | .top :: _ => none
-      | .int :: _ => none
-      | .intc _ :: _ => none
-      | _ :: r => one r          -- a string is parsed; any other representation parses the empty string
+  | .strptime => (apopString p s).bind fun s1 => (apopString p s1).bind one
   | .timestamp => one (.i64 :: s)
   | .settime => (apopInt p s).bind one
   | .push =>
